@@ -284,7 +284,7 @@ func (a *AggregatePlan) batchGetAggrKeys(chunk []KVPair, ctx *ExecuteCtx) ([]str
 			if err != nil {
 				return nil, err
 			}
-			aggKey = appendAggrKeyPart(aggKey, bval)
+			aggKey = appendAggrKeyPart(aggKey, aggrKeyKind(fields[j][i]), bval)
 		}
 		ret[i] = string(aggKey)
 	}
@@ -531,16 +531,30 @@ func (a *AggregatePlan) getAggrKey(key []byte, val []byte, ctx *ExecuteCtx) (str
 		if err != nil {
 			return "", err
 		}
-		gkey = string(appendAggrKeyPart([]byte(gkey), bval))
+		gkey = string(appendAggrKeyPart([]byte(gkey), aggrKeyKind(eval), bval))
 	}
 	return gkey, nil
 }
 
 // appendAggrKeyPart appends one group by value to the group key. The length
 // prefix keeps the values apart: ('a', 'bc') and ('ab', 'c') are two groups.
-func appendAggrKeyPart(key []byte, part []byte) []byte {
+// The kind keeps a number apart from the text that spells it: the values 1
+// and '1' of a dynamically typed column are two groups.
+func appendAggrKeyPart(key []byte, kind byte, part []byte) []byte {
+	key = append(key, kind)
 	key = append(key, []byte(fmt.Sprintf("%d:", len(part)))...)
 	return append(key, part...)
+}
+
+// aggrKeyKind tells the kind of a group by value: number, boolean or text.
+func aggrKeyKind(val any) byte {
+	switch val.(type) {
+	case int, int8, int16, int32, int64, uint, uint8, uint16, uint32, uint64, float32, float64:
+		return 'n'
+	case bool:
+		return 'b'
+	}
+	return 's'
 }
 
 func (a *AggregatePlan) execExpr(kvp KVPair, expr Expression, ctx *ExecuteCtx) ([]byte, error) {
